@@ -1319,6 +1319,12 @@ def run(chk, replay=None):
         p = chk.write_replay("broken_obligation.txt", "\n".join("# " + w for w in what) + "\n" + body +
                              ("\n--- coq log tail ---\n" + pr["log"][-3000:] if not pr["ok"] else ""))
         chk.violation(p, "; ".join(what), no_input=True)
+    if gen_fallbacks and not chk.violations:
+        # fail closed: a piece of the source the translator no longer understands is an undischarged obligation
+        pth = chk.write_replay("untranslatable.txt", "\n".join("# " + g for g in gen_fallbacks) +
+                               "\n# the translator (lib/gen_C20.py) fell back to its committed twin for the pieces above: the theorems are then about the twin,\n"
+                               "# not about the current source; model == implementation and the oracle hold on all %d cases\n" % len(cases))
+        chk.violation(pth, "C20: the source changed in a way the translator does not follow: %s" % "; ".join(gen_fallbacks)[:600], no_input=True)
     if (ill_formed or unreadable) and not replay:
         chk.notes.append("zone files whose table is not well-formed / not readable: %s / %s (their instants were still compared with glibc)"
                          % (ill_formed, unreadable))
